@@ -128,6 +128,17 @@ class FnAnalysis:
         self.need = {}
         self._guards = {}
         self.params = [fn.local_name(i) for i in range(1, fn.arg_count + 1)]
+        # contract of core::array::from_fn::<T, N, F>: the closure is called with 0, 1, .., N-1 only
+        self.param_iv = {}
+        if '::{closure' in fn.name and fn.arg_count == 2:
+            parent = self.F.fns.get(fn.name.rsplit('::{closure', 1)[0])
+            if parent is not None:
+                for b_, t_ in parent.calls():
+                    if t_['fn']['k'] == 'def' and last(t_['fn']['name']) == 'from_fn' and 'array' in t_['fn']['name'] and t_.get('dest') is not None:
+                        m_ = re.match(r'^\[.*; (\d+)\]$', (parent.local_ty(t_['dest']['l']) or '').strip())
+                        from .inline import _closure_of
+                        if m_ and t_['args'] and _closure_of(parent, t_['args'][0]) == fn.name:
+                            self.param_iv[fn.local_name(2)] = (0, int(m_.group(1)) - 1)
 
     # ---------------------------------------------------------------- guards dominating a block
     def guards(self, block):
@@ -272,6 +283,8 @@ class FnAnalysis:
             r = self.counter(e.c['l'])
             tr = ty_range(e.ty)
             return (max(r[0], tr[0]), min(r[1], tr[1]))
+        if k == 'param' and e.name in getattr(self, 'param_iv', {}):
+            return self.param_iv[e.name]
         if k in ('local', 'param'):
             return ty_range(e.ty)
         return ty_range(e.ty)
@@ -580,6 +593,16 @@ class FnAnalysis:
             return (n, n)
         if depth > 30:
             return (0, INF)
+        if e.k == 'field' and e.args and '::{closure' in self.fn.name and strip(e.args[0]).k == 'param' and strip(e.args[0]).name in (self.fn.local_name(1), '_1') \
+                and isinstance(e.c, dict) and 'fidx' in e.c and depth < 20:
+            # a captured slice: its length where the closure was created (the capture is a borrow taken there)
+            parent = self.F.fns.get(self.fn.name.rsplit('::{closure', 1)[0])
+            if parent is not None:
+                for b_, i_, st_ in parent.stmts():
+                    if st_['k'] == 'assign' and st_['rv']['k'] == 'aggr' and st_['rv'].get('akind') == 'closure' and st_['rv'].get('closure') == self.fn.name \
+                            and e.c['fidx'] < len(st_['rv']['ops']):
+                        pfa = self.an.fa(parent) if hasattr(self.an, 'fa') else FnAnalysis(self.an, parent)
+                        return pfa.length(norm(pfa.P.operand(st_['rv']['ops'][e.c['fidx']], b_, i_)), b_, depth + 10)
         if e.k == 'param':
             n = array_len(e.ty)
             if n is not None:
